@@ -7,6 +7,8 @@ from . import common as C
 from . import gil_lib as GL
 from . import sim_check as SC
 
+CLAIM_MORE = "ALSO (coq/Props/C01x.v): with tmax = inf the set fast_nonMarkov_SIR / fast_SIR ever infects is the out-component of the initial nodes in {u->v : delay <= duration}; the single-edge law tau/(tau+gamma) for both the percolation race and Gillespie's first jump, symbolically; on six small graphs the jump-chain final-size law equals the race-percolation final-size law as exact rationals (finite evaluations, labelled as such)."
+
 CLAIM = dict(
     text="Machine-checked theorems (coq/Props/C01.v, closed under the global context) over an executable model of Gillespie_SIR written as the code is "
          "(two _ListDict_ candidate structures, weighted and unweighted paths, both return modes): the initial condition establishes and EVERY event "
